@@ -4,7 +4,7 @@ From Coq Require Import List ZArith Bool Arith Qcanon.
 From TK Require Import Mat_Sums Mat_Core Mat_Qc.
 From TK Require Import Dijkstra_Model Dijkstra_Spec Dijkstra_IsoModel Dijkstra_IsoExec Dijkstra_Sched_Model
      Dijkstra_Proof_Base Dijkstra_Proof_Spec Dijkstra_Proof Dijkstra_Proof_Iso Dijkstra_Proof_IsoExec
-     Dijkstra_Proof_Sched Dijkstra_IsoEmbed Dijkstra_FibC_Model Dijkstra_Proof_FibC.
+     Dijkstra_Proof_Sched Dijkstra_IsoEmbed Dijkstra_IsoSelect Dijkstra_FibC_Model Dijkstra_Proof_FibC.
 From Coq Require Import Permutation.
 Import ListNotations.
 Local Open Scope Z_scope.
@@ -230,6 +230,30 @@ Theorem isomap_embedding_partial : forall (n d : nat) (G V : mat Qc) (lam s : ve
 Proof. exact isomap_embedding_mds. Qed.
 Print Assumptions isomap_embedding_partial.
 
+(* the same with the selection of the dense LargestEigenvalues path inside (sym_avg, rightCols(d), tail(d)) and
+   the clamp sqrt(max(lambda,0)): under the contract of a FULL self-adjoint decomposition (ascending) the returned
+   columns are eigenvectors of -1/2 J S J for the d LARGEST eigenvalues, orthogonal, of squared length
+   max(lambda_j, 0) — the classical-MDS configuration.  PARTIAL only in that Eckart-Young optimality of that
+   configuration (a fact about classical MDS) and the oracles themselves stay outside. *)
+Theorem isomap_embedding_top_d_partial : forall (n d : nat) (G Vf : mat Qc) (Lf s : vec Qc),
+    n <> 0%nat -> (d <= n)%nat ->
+    (forall i j, (i < n)%nat -> (j < n)%nat ->
+        sumn n (fun t => seen_by_dense (iso_fixed n G) i t * Vf t j) = Lf j * Vf i j)%F ->
+    (forall a b, (a < n)%nat -> (b < n)%nat -> sumn n (fun t => Vf t a * Vf t b) = delta a b)%F ->
+    (forall a b, (a <= b)%nat -> (b < n)%nat -> (Lf a <= Lf b)%Qc) ->
+    (forall j, (j < d)%nat -> (0 <= sel_vals n d Lf j)%Qc -> s j * s j = sel_vals n d Lf j)%F ->
+    (forall j, (j < d)%nat -> (sel_vals n d Lf j < 0)%Qc -> s j = 0)%F ->
+    let lam := sel_vals n d Lf in
+    let Y := scale_cols (sel_cols n d Vf) s in
+    (forall j t, (j < d)%nat -> (t < n - d)%nat -> (Lf t <= lam j)%Qc) /\
+    (forall i j, (i < n)%nat -> (j < d)%nat ->
+        sumn n (fun t => mds_ref n G i t * Y t j) = lam j * Y i j)%F /\
+    (forall a b, (a < d)%nat -> (b < d)%nat ->
+        sumn n (fun t => Y t a * Y t b) =
+        if Nat.eqb a b then (if Qclt_le_dec (lam a) 0 then 0 else lam a) else 0)%F.
+Proof. exact isomap_embedding_top_d. Qed.
+Print Assumptions isomap_embedding_top_d_partial.
+
 (* ---- non-vacuity: the hypotheses are satisfiable together ---- *)
 Example hypotheses_satisfiable :
     wf_graph f4_nbrs 3 1 /\ nonneg_w f4_nbrs f4_w /\ metric_w f4_w 3 /\
@@ -264,3 +288,17 @@ Example embedding_hypotheses_satisfiable :
       (forall j, (j < d)%nat -> s j * s j = lam j)%F /\
       scale_cols emb_V s 1%nat 0%nat = qz (-1).
 Proof. exact isomap_embedding_contract_satisfiable. Qed.
+
+(* the full-decomposition contract of isomap_embedding_top_d_partial holds for the same four samples
+   (Hadamard basis / 2, spectrum 0,0,0,4) *)
+Example select_hypotheses_satisfiable :
+    let n := 4%nat in let d := 1%nat in let s : vec Qc := fun _ => qz 2 in
+    n <> 0%nat /\ (d <= n)%nat /\
+    (forall i j, (i < n)%nat -> (j < n)%nat ->
+        sumn n (fun t => seen_by_dense (iso_fixed n emb_G) i t * emb_Vf t j) = emb_Lf j * emb_Vf i j)%F /\
+    (forall a b, (a < n)%nat -> (b < n)%nat -> sumn n (fun t => emb_Vf t a * emb_Vf t b) = delta a b)%F /\
+    (forall a b, (a <= b)%nat -> (b < n)%nat -> (emb_Lf a <= emb_Lf b)%Qc) /\
+    (forall j, (j < d)%nat -> (0 <= sel_vals n d emb_Lf j)%Qc -> s j * s j = sel_vals n d emb_Lf j)%F /\
+    (forall j, (j < d)%nat -> (sel_vals n d emb_Lf j < 0)%Qc -> s j = 0)%F /\
+    scale_cols (sel_cols n d emb_Vf) s 1%nat 0%nat = qz (-1).
+Proof. exact isomap_select_contract_satisfiable. Qed.
